@@ -1186,6 +1186,200 @@ Section Histories.
   Qed.
 End Histories.
 
+(** * 10b. A handshake that runs alone never waits *)
+Section NoWait.
+  Variable is_space : N -> bool.
+  Variable h : hello.
+
+  Definition nowait (l : list effect) : Prop := existsb is_selfwait l = false.
+
+  Lemma nowait_app a b : nowait a -> nowait b -> nowait (a ++ b).
+  Proof. unfold nowait. rewrite existsb_app. intros -> ->; reflexivity. Qed.
+  Lemma nowait_cons x a : is_selfwait x = false -> nowait a -> nowait (x :: a).
+  Proof. unfold nowait; cbn [existsb]. intros -> ->; reflexivity. Qed.
+
+  Lemma gate_nowait w n req ge a w1 : gate is_space w n req = (ge, a, w1) -> nowait ge.
+  Proof. intros H. destruct (gate_shape _ _ _ _ _ _ _ H) as [->|[->| ->]]; reflexivity. Qed.
+  Lemma obtain_cert_nowait w n ok e o w1 : obtain_cert w n ok = (e, o, w1) -> nowait e.
+  Proof. unfold obtain_cert. destruct (store_has n w); [|destruct ok]; intros H; inv H; reflexivity. Qed.
+  Lemma renew_cert_nowait w n force ok e o w1 : renew_cert w n force ok = (e, o, w1) -> nowait e.
+  Proof.
+    unfold renew_cert. destruct (store_find n w); [destruct (due _ || force); [destruct ok|]|];
+      intros H; inv H; reflexivity.
+  Qed.
+  Lemma reload_nowait w c e r w1 : reload w c = (e, r, w1) -> nowait e.
+  Proof. unfold reload. destruct (store_find _ w); intros H; inv H; reflexivity. Qed.
+
+  Lemma force_renew_nowait w c ok e r w1 : force_renew w c ok = (e, r, w1) -> nowait e.
+  Proof.
+    unfold force_renew. intros H. destruct (c_keycomp c).
+    - destruct (obtain_cert _ _ _) as [[e0 o] w0] eqn:E0. cbv beta iota zeta in H.
+      apply obtain_cert_nowait in E0. destruct o.
+      + destruct (reload w0 c) as [[e2 r2] w2] eqn:E2. apply reload_nowait in E2. inv H.
+        apply nowait_cons; [reflexivity|]. apply nowait_app; assumption.
+      + inv H. apply nowait_cons; [reflexivity|]. apply nowait_app; [assumption|reflexivity].
+    - destruct (renew_cert _ _ _ _) as [[e0 o] w0] eqn:E0. cbv beta iota zeta in H.
+      apply renew_cert_nowait in E0. destruct o.
+      + destruct (reload w0 c) as [[e2 r2] w2] eqn:E2. apply reload_nowait in E2. inv H.
+        apply nowait_app; assumption.
+      + inv H. apply nowait_app; [assumption|reflexivity].
+  Qed.
+
+  Lemma rar_nowait w n c ok e r w1 : renew_and_reload is_space w n c ok = (e, r, w1) -> nowait e.
+  Proof.
+    unfold renew_and_reload. intros H.
+    destruct (gate is_space w n true) as [[ge a] w0] eqn:G. cbv beta iota zeta in H.
+    apply gate_nowait in G. destruct a; cbn [negb] in H.
+    - destruct (c_revoked c).
+      + destruct (force_renew w0 c ok) as [[e1 r1] w2] eqn:E1. apply force_renew_nowait in E1. inv H.
+        apply nowait_app; assumption.
+      + destruct (renew_cert w0 n false ok) as [[e1 o1] w2] eqn:E1. apply renew_cert_nowait in E1.
+        cbv beta iota zeta in H. destruct o1.
+        * destruct (reload w2 c) as [[e2 r2] w3] eqn:E2. apply reload_nowait in E2. inv H.
+          apply nowait_app; [assumption|apply nowait_app; assumption].
+        * inv H. apply nowait_app; assumption.
+    - inv H. apply nowait_app; [assumption|reflexivity].
+  Qed.
+
+  Lemma rd_nowait w c held e k r w1 : renew_dynamic is_space w h c held = (e, k, r, w1) ->
+    nowait e /\ Forall nowait k.
+  Proof.
+    unfold renew_dynamic. intros H. destruct (h_name h) as [n|].
+    2:{ inv H. split; [reflexivity|constructor]. }
+    destruct held.
+    - destruct (c_expired c || c_revoked c); inv H; (split; [reflexivity|constructor]).
+    - destruct (c_expired c).
+      + destruct (renew_and_reload _ _ _ _ _) as [[e1 r1] w2] eqn:E1. apply rar_nowait in E1. inv H.
+        split; [assumption|constructor].
+      + destruct (renew_and_reload _ _ _ _ _) as [[e1 r1] w2] eqn:E1. apply rar_nowait in E1. inv H.
+        split; [reflexivity|constructor; [assumption|constructor]].
+  Qed.
+
+  Section Knot.
+    Variable LAM : world -> hello -> name -> bool -> out (option mres).
+    Hypothesis HL : forall w n held e k r w1, LAM w h n held = (e, k, r, w1) -> nowait e /\ Forall nowait k.
+
+    Lemma ood_nowait w n e k r w1 : obtain_on_demand LAM w h n = (e, k, r, w1) -> nowait e /\ Forall nowait k.
+    Proof.
+      unfold obtain_on_demand. intros H.
+      destruct (obtain_cert w n (h_issue_ok h)) as [[e1 o] w0] eqn:E1. apply obtain_cert_nowait in E1.
+      cbv beta iota zeta in H. destruct o.
+      - destruct (LAM w0 h n true) as [[[e2 k2] r2] w2] eqn:E2. apply HL in E2 as [A K]. inv H.
+        split; [apply nowait_app; assumption|assumption].
+      - inv H. split; [assumption|constructor].
+    Qed.
+
+    Lemma rin_nowait w c held e k r w1 : renew_if_necessary is_space LAM w h c held = (e, k, r, w1) ->
+      nowait e /\ Forall nowait k.
+    Proof.
+      unfold renew_if_necessary. intros H. destruct (due c).
+      2:{ inv H. split; [reflexivity|constructor]. }
+      destruct (store_has (name0 c) w).
+      - destruct (renew_dynamic is_space w h c held) as [[[e1 k1] r1] w2] eqn:E1.
+        apply rd_nowait in E1 as [A K]. inv H. split; [apply nowait_cons; [reflexivity|assumption]|assumption].
+      - destruct (h_name h) as [n|].
+        2:{ inv H. split; [reflexivity|constructor]. }
+        destruct (gate is_space w n true) as [[ge a] w0] eqn:G. cbv beta iota zeta in H.
+        apply gate_nowait in G. destruct a.
+        + destruct held.
+          { inv H. split; [apply nowait_cons; [reflexivity|assumption]|constructor]. }
+          destruct (obtain_on_demand LAM w0 h n) as [[[e1 k1] r1] w2] eqn:E1.
+          apply ood_nowait in E1 as [A K]. inv H.
+          split; [apply nowait_cons; [reflexivity|apply nowait_app; assumption]|assumption].
+        + inv H. split; [|constructor].
+          apply nowait_cons; [reflexivity|apply nowait_app; [assumption|reflexivity]].
+    Qed.
+
+    Lemma maint_nowait w c held e k r w1 : maintenance is_space LAM w h c held = (e, k, r, w1) ->
+      nowait e /\ Forall nowait k.
+    Proof.
+      unfold maintenance. intros H.
+      match type of H with (let '(ka, wa) := ?X in _) = _ => destruct X as [ka wa] eqn:EA end.
+      cbv beta iota zeta in H.
+      assert (A : Forall nowait ka).
+      { destruct (c_ari c) as [d|]; [|inv EA; constructor].
+        destruct (c_expired c); [inv EA; constructor|].
+        match type of EA with context [renew_if_necessary ?a ?b ?c ?d ?e ?f] =>
+          destruct (renew_if_necessary a b c d e f) as [[[e0 k0] r0] w0] eqn:E0 end.
+        inv EA. apply rin_nowait in E0 as [A0 K0].
+        constructor; [apply nowait_cons; [reflexivity|assumption]|assumption]. }
+      destruct (c_managed c && negb (is_empty_names c) && c_revoked c).
+      - destruct (renew_dynamic is_space wa h c held) as [[[e1 k1] r1] w2] eqn:E1.
+        apply rd_nowait in E1 as [A1 K1]. inv H. split; [assumption|apply Forall_app; auto].
+      - destruct (renew_if_necessary is_space LAM wa h c held) as [[[e1 k1] r1] w2] eqn:E1.
+        apply rin_nowait in E1 as [A1 K1]. inv H. split; [assumption|apply Forall_app; auto].
+    Qed.
+  End Knot.
+
+  Lemma lam_nowait fuel : forall w n held e k r w1,
+    load_and_maintain is_space fuel w h n held = (e, k, r, w1) -> nowait e /\ Forall nowait k.
+  Proof.
+    induction fuel as [|f IH]; intros w n held e k r w1 H; cbn [load_and_maintain] in H.
+    - inv H. split; [reflexivity|constructor].
+    - match type of H with (match ?X with _ => _ end) = _ => destruct X as [[le s]|] eqn:EF end.
+      + assert (FL : nowait le).
+        { destruct (store_find n w); [inv EF; reflexivity|].
+          destruct (store_find (wild n) w); inv EF; reflexivity. }
+        cbv zeta in H.
+        match type of H with context [cache_add (as_loaded s) ?W0] => set (w0 := W0) in * end.
+        destruct (maintenance is_space (load_and_maintain is_space f) (cache_add (as_loaded s) w0) h (as_loaded s) held)
+          as [[[e1 k1] r1] w2] eqn:E1.
+        apply (maint_nowait _ IH) in E1 as [A1 K1]. inv H. split; [apply nowait_app; assumption|assumption].
+      + inv H. split; [reflexivity|constructor].
+  Qed.
+
+  Lemma after_mgr_nowait fuel w n load e k res w1 : after_mgr is_space fuel w h n load = (e, k, res, w1) ->
+    nowait e /\ Forall nowait k.
+  Proof.
+    unfold after_mgr. intros H.
+    destruct (gate is_space w n false) as [[ge a] w0] eqn:G. cbv beta iota zeta in H.
+    apply gate_nowait in G.
+    destruct a; cbn [negb] in H; [|inv H; split; [assumption|constructor]].
+    destruct ((od_on w0 || almost_full w0) && load); [|inv H; split; [assumption|constructor]].
+    destruct (load_and_maintain is_space (S fuel) w0 h n false) as [[[e1 k1] r1] w2] eqn:E1.
+    apply lam_nowait in E1 as [A1 K1].
+    destruct r1 as [m|].
+    + destruct m; inv H; (split; [apply nowait_app; assumption|assumption]).
+    + destruct (od_on w2).
+      * destruct (obtain_on_demand _ _ _ _) as [[[e2 k2] m2] w3] eqn:E2.
+        apply (ood_nowait _ (lam_nowait fuel)) in E2 as [A2 K2]. inv H.
+        split; [apply nowait_app; [assumption|apply nowait_app; assumption]|apply Forall_app; auto].
+      * inv H. split; [apply nowait_app; assumption|assumption].
+  Qed.
+
+  (** a handshake that runs alone never waits: no effect list of the model contains a self-wait
+      (the three waiting selects are only ever entered for another goroutine's channel; the load
+      and obtain channels a goroutine registered itself are recognised [fixes 29c65de, a768045]) *)
+  Theorem get_cert_nowait fuel w load e k res w1 : get_cert is_space fuel w h load = (e, k, res, w1) ->
+    nowait e /\ Forall nowait k.
+  Proof.
+    unfold get_cert. intros H.
+    destruct (match h_hit h with Some id => cache_find id w | None => None end) as [c|].
+    - destruct (c_managed c && od_on w && load).
+      + destruct (maintenance _ _ _ _ _ _) as [[[e1 k1] r1] w2] eqn:E1.
+        apply (maint_nowait _ (lam_nowait fuel)) in E1 as [A1 K1]. inv H. auto.
+      + inv H. split; [reflexivity|constructor].
+    - destruct (h_name h) as [n|]; [|inv H; split; [reflexivity|constructor]].
+      destruct (mgr_view w h).
+      + eapply after_mgr_nowait; eauto.
+      + destruct (after_mgr is_space fuel w h n load) as [[[e1 k1] r1] w2] eqn:E1. inv H.
+        apply after_mgr_nowait in E1 as [A K]. split; [apply nowait_cons; [reflexivity|assumption]|assumption].
+      + inv H. split; [reflexivity|constructor].
+      + inv H. split; [reflexivity|constructor].
+  Qed.
+End NoWait.
+
+Theorem handshake_no_selfwait is_space w h e k res w1 :
+  handshake is_space w h = (e, k, res, w1) -> no_selfwait (e :: k) = true.
+Proof.
+  intros H. destruct (get_cert_nowait is_space h _ _ _ _ _ _ _ H) as [A K].
+  unfold no_selfwait. apply negb_true_iff. apply not_true_iff_false. intros Ex.
+  apply existsb_exists in Ex as (g & Hg & Eg).
+  assert (N : nowait g).
+  { destruct Hg as [<-|Hg]; [exact A|]. rewrite Forall_forall in K. apply K; exact Hg. }
+  unfold nowait in N. congruence.
+Qed.
+
 (** * 11. The literals of the source the model was written against (translator item
     c02EmitC02GateShape): the cache-miss gate is called with requireOnDemand = false, the two
     renewal-side gates (storage-missing branch of handshakeMaintenance, renewAndReload) with true, and
